@@ -43,6 +43,26 @@ func (e *extractor) postProcess() {
 		}
 	}
 
+	// max_links: the bound of the Readlink loop in copyOutSymlink
+	if cs := e.funcDecl("martian/core/post_process.go", "copyOutSymlink"); cs != nil {
+		found := -1
+		ast.Inspect(cs.Body, func(n ast.Node) bool {
+			if vs, ok := n.(*ast.ValueSpec); ok && len(vs.Names) == 1 && vs.Names[0].Name == "maxLinks" && len(vs.Values) == 1 {
+				if bl, ok := vs.Values[0].(*ast.BasicLit); ok && bl.Kind == token.INT {
+					if v, err := strconv.Atoi(bl.Value); err == nil {
+						found = v
+					}
+				}
+			}
+			return true
+		})
+		if found < 0 {
+			e.fail("copyOutSymlink: const maxLinks = <int> not found (the Readlink loop must be bounded)")
+		} else {
+			fmt.Fprintf(&e.out, "Definition max_links : N := %d%%N.\n", found)
+		}
+	}
+
 	fl := e.funcDecl("martian/syntax/compile_params.go", "IsLegalUnixFilename")
 	if fl == nil {
 		return
